@@ -253,6 +253,30 @@ def pipeline(db, ctx):
             og = origins(db, m, c["args"][0], depth=0)
             ok = any(o[0] == "call" and path_ends(o[1], "strip_eol") for o in og)
     ctx.ob("main|strip-then-analyze", ok, "the text handed to analyze() is the result of strip_eol(): %s" % ok, fn=m)
+    # the read loop: the line buffer is cleared on EVERY iteration (read_line appends) and every line is analysed
+    loop = None
+    for n, ps in walk(m.hir):
+        if n.get("k") == "Loop" and "read_line" in render(n)[:400]:
+            loop = n
+    if loop is None:
+        raise AnchorMissing("main: read_line loop")
+    body = loop["body"]
+    order = []
+    for n, ps in walk(body):
+        if n.get("k") == "MethodCall" and n.get("method") == "clear" and "data" in render(n["recv"]):
+            order.append("clear")
+        elif n.get("k") == "MethodCall" and n.get("method") == "analyze":
+            order.append("analyze")
+        elif n.get("k") == "Continue":
+            order.append("continue")
+        elif n.get("k") == "Break" and not (n.get("mac") and "desugar:WhileLoop" in n["mac"]):
+            order.append("break")
+    idx_clear = order.index("clear") if "clear" in order else None
+    early = [x for x in order[:idx_clear if idx_clear is not None else len(order)] if x in ("continue",)]
+    skipped_analyze = "continue" in order[:order.index("analyze")] if "analyze" in order else True
+    ctx.ob("main|buffer-cleared-every-iteration", idx_clear is not None and not early,
+           "read loop events in order: %s — `continue` before data.clear(): %s (read_line appends: a skipped clear glues the next line to this one)" % (order, bool(early)), fn=m)
+    ctx.ob("main|every-line-analysed", not skipped_analyze, "no `continue` precedes analyze() in the read loop: %s" % (not skipped_analyze), fn=m)
     asp = [f for f in db.impls_of("Analysis::analyze") if "AnalyzeSplitted" in f.key]
     ans = [f for f in db.impls_of("Analysis::analyze") if "AnalyzeNonSplitted" in f.key]
     if len(asp) != 1 or len(ans) != 1:
